@@ -103,14 +103,14 @@ OnnxFunctionDecorator = Callable[[OnnxFunctionTarget], OnnxFunctionTarget]
 
 @contextmanager
 def _temporary_x64(enabled: bool) -> Iterator[None]:
-    prev = jax.config.jax_enable_x64
-    try:
-        if enabled != prev:
-            jax.config.update("jax_enable_x64", enabled)
+    # JAX's own context manager: it also takes effect when the caller already sits inside
+    # a thread-local ``jax.enable_x64(...)`` block (a process-wide update would be shadowed
+    # there) and it never writes the caller's effective value into the process-wide flag.
+    enable_x64 = getattr(jax, "enable_x64", None)
+    if enable_x64 is None:
+        from jax.experimental import enable_x64
+    with enable_x64(bool(enabled)):
         yield
-    finally:
-        if jax.config.jax_enable_x64 != prev:
-            jax.config.update("jax_enable_x64", prev)
 
 
 def _normalize_return_mode(value: str) -> ReturnMode:
